@@ -289,6 +289,16 @@ def current_state(runner, node):
     return um, runner.registers_defined(node), arrays
 
 
+def exc_suffix(rec):
+    """:<exception class> of the failure the protocol logged for this message, if any"""
+    import re
+    for e in rec["errors"]:
+        m = re.search(r"<class '([\w.]+)'>", e)
+        if m:
+            return ":" + m.group(1).rsplit(".", 1)[-1]
+    return ""
+
+
 def execute(case, gen_rng=None, res=None):
     """Run a case on the real code and judge it.  case = {seed, cap, msgs: [...]}; with gen_rng the messages are
     generated on the fly (adapting to the observed allocation state) from case["plan"] and recorded into
@@ -330,7 +340,8 @@ def execute(case, gen_rng=None, res=None):
             if gen_rng is not None:
                 pg = ProgGen(gen_rng, m[2])
             if [r[0] for r in rec["replies"]] != ["MsgDoneMessage"]:
-                viol.append(("init-reply", "InitNewApp answered %s" % [r[0] for r in rec["replies"]], idx))
+                viol.append(("init-reply" + exc_suffix(rec), "InitNewApp(app %d) answered %s" % (m[1], [r[0] for r in rec["replies"]]), idx))
+                break
         elif kind == "stop":
             rec = runner.send(node, "stop", app=m[1])
             try:
@@ -342,7 +353,7 @@ def execute(case, gen_rng=None, res=None):
                 want_ops = None
             got = [nqcase.show_op(o) for o in rec["ops"]]
             if [r[0] for r in rec["replies"]] != ["MsgDoneMessage"]:
-                viol.append(("stop-reply", "StopApp answered %s" % [r[0] for r in rec["replies"]], idx))
+                viol.append(("stop-reply" + exc_suffix(rec), "StopApp(app %d) answered %s" % (m[1], [r[0] for r in rec["replies"]]), idx))
                 break
             if want_ops is None or sorted(got) != sorted(nqcase.show_op(o) for o in want_ops):
                 viol.append(("wrong-qubit", "stop measured %s, the application held %s" % (got, want_ops), idx))
@@ -367,18 +378,19 @@ def execute(case, gen_rng=None, res=None):
             got_ops = [nqcase.show_op(o) for o in rec["ops"]]
             if res is not None:
                 res.count("sub:error" if err else "sub:ok")
+            line = runner.failing_line(rec) if "err" in got_replies else None
+            if line is not None and line < len(rec["prog"]) and (not err or at != line):
+                mn = rec["prog"][line].mnemonic
+                viol.append(("refused:" + mn, "`%s` (line %d) is answered with an ErrorMessage; the reference "
+                             "executes it" % (nqcase.render_instr(rec["prog"][line]), line), idx))
+                break
+            if err and "err" not in got_replies:
+                mn = rec["prog"][at].mnemonic
+                viol.append(("accepted:" + mn, "`%s` (line %d) must be refused but the subroutine completed"
+                             % (nqcase.render_instr(rec["prog"][at]), at), idx))
+                break
             if got_replies != want_replies:
-                line = runner.failing_line(rec)
-                if "err" in got_replies and not err and line is not None and line < len(rec["prog"]):
-                    mn = rec["prog"][line].mnemonic
-                    viol.append(("refused:" + mn, "`%s` (line %d) is answered with an ErrorMessage; the reference "
-                                 "executes it" % (nqcase.render_instr(rec["prog"][line]), line), idx))
-                elif err and "err" not in got_replies:
-                    mn = rec["prog"][at].mnemonic
-                    viol.append(("accepted:" + mn, "`%s` (line %d) must be refused but the subroutine completed"
-                                 % (nqcase.render_instr(rec["prog"][at]), at), idx))
-                else:
-                    viol.append(("replies", "replies %s, reference %s" % (got_replies, want_replies), idx))
+                viol.append(("replies", "replies %s, reference %s" % (got_replies, want_replies), idx))
                 break
             if got_ops != [nqcase.show_op(o) for o in want_ops]:
                 viol.append(("wrong-qubit", "operations %s, reference %s" % (got_ops, [nqcase.show_op(o) for o in want_ops]), idx))
